@@ -343,3 +343,59 @@ def c_np_ones_bool(ctx, shape, dtype=None):
   else:
     n = shape
   return MaskV(n, n)
+
+
+class TblListCell(Cell):
+  """A python list of Examples dicts, kept as the concatenation of their rows
+  (`flat`) and the number of elements (`count`); all elements share `feats`."""
+
+  def __init__(self, flat, count, feats=None, owner='local', label='buf'):
+    self.flat, self.count, self.feats = flat, count, feats
+    self.owner, self.label = owner, label
+
+  def method(self, ctx, ref, name, args, kwargs):
+    if name == 'append':
+      (t,) = args
+      if not isinstance(t, TableV) or t.mask is not None or t.pre:
+        raise Unsupported('append of a non-raw table')
+      self.check_write(ctx, ref, 'append')
+      c = self.clone()
+      c.flat = z3.Concat(self.flat, t.rows)
+      c.count = to_z3(self.count) + 1
+      c.feats = t.feats
+      ctx.set_cell(ref.addr, c)
+      return None
+    if name == 'clear':
+      self.check_write(ctx, ref, 'clear')
+      c = self.clone()
+      c.flat = z3.Empty(RowSeq)
+      c.count = z3.IntVal(0)
+      ctx.set_cell(ref.addr, c)
+      return None
+    raise Unsupported(f'list.{name}')
+
+  def truth(self, ctx, ref):
+    return to_z3(self.count) > 0
+
+  def length(self, ctx, ref):
+    return self.count
+
+  def havoc(self, ctx, base):
+    c = self.clone()
+    c.flat = ctx.fresh(base + '_flat', RowSeq)
+    c.count = ctx.fresh(base + '_count')
+    return c
+
+  def term(self, ctx):
+    return self.flat
+
+
+def c_concat_examples(ctx, many):
+  """TABLE contract of concat_examples on a non-empty list of tables with the
+  same features: rows are concatenated in list order."""
+  if isinstance(many, Ref) and isinstance(many.cell(ctx), TblListCell):
+    c = many.cell(ctx)
+    ctx.oblige('concat.nonempty', to_z3(c.count) > 0, kind='precondition',
+               detail='concat_examples of an empty list returns {} (no features)')
+    return TableV(c.flat, c.feats)
+  raise Unsupported('concat_examples argument')
